@@ -93,6 +93,12 @@ def make_cases(tier, seed):
         for fn in FUNCS:
             for a1, a2 in pairs:
                 add({"kind": "shape", "method": m, "fn": fn, "a1": a1, "a2": a2, "nR": 20, "nZ": 23})
+    # ... and through the real TokamakEquilibrium (psi decreasing and increasing outwards), same-kind argument pairs
+    for m in ("spline", "dct"):
+        for sign in (1.0, -1.0):
+            for fn in FUNCS:
+                for a in ("scalar", "array", "array2d", "mla"):
+                    add({"kind": "shape", "method": m, "fn": fn, "a1": a, "a2": a, "nR": 65, "nZ": 65, "eq": "tokamak", "psi_sign": sign})
     return cases
 
 
@@ -131,7 +137,7 @@ def describe(c):
                                                           + (" amp=%g" % c["amp"] if "amp" in c else ""))
     if k == "agree":
         return "agree family=%s n=%dx%d" % (c["family"], c["nR"], c["nZ"])
-    return "shape method=%s fn=%s args=%s,%s" % (c["method"], c["fn"], c["a1"], c["a2"])
+    return "shape method=%s fn=%s args=%s,%s%s" % (c["method"], c["fn"], c["a1"], c["a2"], " eq=tokamak sign=%d" % c["psi_sign"] if c.get("eq") == "tokamak" else "")
 
 
 def run(tier, seed):
